@@ -54,7 +54,10 @@ CHECKS = {
         text="Theorems: list results of reorder/push/pop/delete are the documented ones; the four tree shortcuts, the "
              "temp-index path (git apply) and the work-tree merge all return the cell-wise three-way merge; "
              "non-overlapping changes merge cleanly and commute; already-present changes become empty; the temp-index "
-             "cache stays coherent (fix F7); pop+push reuses the same commits."),
+             "cache stays coherent (fix F7); pop+push reuses the same commits; the --merged heuristic is proved to lose "
+             "a patch's change in the model (C07_merged_heuristic_refuted, known finding F37, corpus scenario). Direct "
+             "oracles independent of the model: content (cell-wise three-way merge, with --merged's own definition "
+             "recomputed) and order (named patches adjacent at the requested place, others keep their relative order)."),
     "C08": dict(category="proof", design_ref="DESIGN.md section 4/C08",
         text="Theorems on the stack / command model, where a commit carries the author name, e-mail, date and message "
              "as one opaque identity plus the message text: commit objects are immutable under every command; after "
@@ -63,7 +66,7 @@ CHECKS = {
              "uncommit, is an existing commit taken as it is; rename keeps the very commit; undo / redo / reset re-create "
              "nothing; new gives the requested identity and leaves the others; a refresh that changes nothing creates no "
              "commit; stg edit -m changes only the named patch's identity and an edit that changes nothing runs no "
-             "transaction. End-to-end direct oracle on commits with legacy encodings (ISO-8859-1, windows-1252, valid-UTF-8 "
+             "transaction; stg squash yields the requested identity for the squashed patch and keeps all others. End-to-end direct oracle on commits with legacy encodings (ISO-8859-1, windows-1252, valid-UTF-8 "
              "bytes under a declared single-byte encoding), odd identities, time zones and git notes through every "
              "re-creating operation (fixes F15, F28).",
         note="Partial: byte-level decoding / re-encoding (encoding header, encoding_rs tables, git's i18n.commitEncoding) "
@@ -75,7 +78,10 @@ CHECKS = {
         text="Theorems: a conflict halt keeps every earlier push; halted transactions never exit 0; with conflicts "
              "disallowed nothing is touched; guarded commands and undo without --hard refuse while the index is "
              "unmerged; source ties: check_conflicts is called unguarded in push/pop/goto/float/sink/delete/new/"
-             "squash/spill and CONFLICT_ERROR = 3."),
+             "squash/spill and CONFLICT_ERROR = 3; for all 22 modelled commands the transaction-builder options in the "
+             "current source (conflict policy, discard_changes, use_index_and_worktree, set_head, allow_bad_head) equal "
+             "the ones the model uses. Direct oracles: conflict-halt shape, refusal while unmerged, a halt keeps every "
+             "patch in exactly one list."),
     "C10": dict(category="proof", design_ref="DESIGN.md section 4/C10", note=HIST_NOTE, technique=HIST_TECH,
         text="Theorem: the two-way merge model keeps every locally modified file or refuses; source ties: "
              "discard_changes only under --hard in every command, read-tree --reset only in reset --hard and behind "
